@@ -2,6 +2,7 @@ package harness
 
 import (
 	"fmt"
+	"math/big"
 	"strings"
 	"time"
 
@@ -37,10 +38,21 @@ func expectBESSQER(gateClosed bool, mbr, gbr uint64, cfg qciCfg) (gate, cir, pir
 	}
 	pir = mbr * 125
 	d := uint64(cfg.durMs)
-	minCbs = maxU(gbr*125*d/1000, uint64(cfg.cbs))
-	minPbs = maxU(mbr*125*d/1000, uint64(cfg.pbs))
-	minEbs = maxU(mbr*125*d/1000, uint64(cfg.ebs))
+	minCbs = maxU(rateTimesMs(gbr*125, d), uint64(cfg.cbs))
+	minPbs = maxU(rateTimesMs(mbr*125, d), uint64(cfg.pbs))
+	minEbs = maxU(rateTimesMs(mbr*125, d), uint64(cfg.ebs))
 	return 0, cir, pir, true, minCbs, minPbs, minEbs
+}
+
+// rateTimesMs: bytes per second x milliseconds / 1000 in exact arithmetic; what does
+// not fit 64 bits is the largest value there is (a burst cannot be larger).
+func rateTimesMs(bytesPerSec, ms uint64) uint64 {
+	v := new(big.Int).Mul(new(big.Int).SetUint64(bytesPerSec), new(big.Int).SetUint64(ms))
+	v.Div(v, big.NewInt(1000))
+	if !v.IsUint64() {
+		return ^uint64(0)
+	}
+	return v.Uint64()
 }
 
 func maxU(a, b uint64) uint64 {
